@@ -125,7 +125,9 @@ impl<'a> CodeBody<'a> {
             if let Some(a) = b.completion_value.take() {
                 b.terminator = Some(Terminator::Return(a));
             } else {
-                b.terminator = if reachable[i] {
+                // incoming "br" edges are left intact if this block has statements to run
+                let keeps_incoming = !b.statements.is_empty() && !incoming_map[i].is_empty();
+                b.terminator = if reachable[i] || keeps_incoming {
                     let end = byte_range.end; // implicit return should be at end
                     Some(Terminator::Return(Operand::Void(Void::new(end..end))))
                 } else {
